@@ -54,8 +54,31 @@ def set_accelerator_order(seed):
     loadsample.Accelerator.__hash__ = lambda self: rank.get(self.name, 0) * 7919 + 13
     loadsample.Accelerator.__eq__ = lambda self, other: self is other
 
+class Hang(Exception):
+    pass
+
 def load(tape, start, cfg, outfile, extra=()):
-    """Run tap2sna on `tape` with sim-load configuration dict `cfg`; -> (stdout, captured state dict, Snapshot)."""
+    """Run tap2sna on `tape` with sim-load configuration dict `cfg`; -> (stdout, captured state dict, Snapshot).
+    Loads on the C engine run in a child process: the C load loop cannot be interrupted from Python, and a defect
+    there may turn into an endless loop (the simulated LOAD's own time-out is part of what is being tested)."""
+    if not int(cfg.get('python', 0)):
+        from .harness import in_child, ChildKilled
+        try:
+            r = in_child(lambda: _load_tool(tape, start, cfg, outfile, extra), 120)
+        except ChildKilled:
+            raise Hang('tap2sna (C engine) did not return within 120 s and was killed: %r' % (cfg,))
+        if r[0] == 'exc':
+            raise ToolError(r[2])
+        out, state = r[1]
+    else:
+        out, state = _load_tool(tape, start, cfg, outfile, extra)
+    try:
+        snap = snapshot_mod.Snapshot.get(outfile)
+    except Exception as e:
+        raise ToolError('snapshot written by tap2sna cannot be read back: %s: %s' % (type(e).__name__, e))
+    return out, state, snap
+
+def _load_tool(tape, start, cfg, outfile, extra):
     _state.clear()
     args = []
     if start is not None:
@@ -64,11 +87,7 @@ def load(tape, start, cfg, outfile, extra=()):
         args += ['-c', '%s=%s' % (k, v)]
     args += list(extra) + [tape, outfile]
     out = run_tool(tap2sna, args)
-    try:
-        snap = snapshot_mod.Snapshot.get(outfile)
-    except Exception as e:
-        raise ToolError('snapshot written by tap2sna%r cannot be read back: %s: %s' % (args, type(e).__name__, e))
-    return out, dict(_state), snap
+    return out, dict(_state)
 
 def stripped(out):
     """stdout without the progress percentages."""
